@@ -438,12 +438,21 @@ def oracle(case, res):
             fails.append((f"C12/{tag}/pairing", "the sample contains a (score, label) pair that is not in the source's class"))
         m = resolved(case, smp)
         if smp["strat"] != "by_group" and len(o["hist"]) >= 2:
-            dp, dn = o["hist"][-2], o["hist"][-1]
-            if m == "replacement" and dp[0] == dn[0] == "choice":
+            hist = list(o["hist"])
+            fix = []
+            while hist and hist[-1][0] == "choice1":      # single-pass at-least-one corrections
+                fix.insert(0, hist.pop())
+            dp, dn = (hist[-2], hist[-1]) if len(hist) >= 2 else (["?"], ["?"])
+            if m == "replacement" and dp[0] == dn[0] == "choice" and not fix:
                 ip, in_ = dp[3], dn[3]
-            elif m == "single_pass" and dp[0] == dn[0] and dp[0] in ("binomvec", "poissonvec"):
-                ip = [i for i, k in enumerate(dp[-1]) for _ in range(k)]
-                in_ = [i for i, k in enumerate(dn[-1]) for _ in range(k)]
+            elif m == "single_pass" and dp[0] in ("binomvec", "poissonvec") and dn[0] in ("binomvec", "poissonvec"):
+                kp, kn = list(dp[-1]), list(dn[-1])
+                if not any(kp) and fix and 0 <= fix[0][2] < len(kp):
+                    kp[fix.pop(0)[2]] = 1
+                if not any(kn) and fix and 0 <= fix[0][2] < len(kn):
+                    kn[fix.pop(0)[2]] = 1
+                ip = [i for i, k in enumerate(kp) for _ in range(k)]
+                in_ = [i for i, k in enumerate(kn) for _ in range(k)]
             else:
                 ip = in_ = None
             if ip is not None and all(0 <= i < len(P) for i in ip) and all(0 <= i < len(N) for i in in_):
